@@ -1199,8 +1199,14 @@ fn gen_filters(r: &mut Rng) -> Case {
     let mut r1 = parse_rules("?X val ?N => ?X is big").remove(0);
     r1.filters.push(Flt { var: "N".into(), op: op(r), val: r.range(1, 11).to_string() });
     rules.push(r1);
-    match r.below(4) {
+    match r.below(5) {
         0 => {}
+        4 => {
+            // filter comparing two rule variables
+            let mut r2 = parse_rules("?X val ?N , ?Y val ?M => ?X above ?Y").remove(0);
+            r2.filters.push(Flt { var: "N".into(), op: r.pick(&["=", "!="]).to_string(), val: "M".into() });
+            rules.push(r2);
+        }
         1 => {
             let mut r2 = parse_rules("?X val ?N , ?X e ?Y => ?Y near ?X").remove(0);
             r2.filters.push(Flt { var: "N".into(), op: op(r), val: r.range(1, 11).to_string() });
